@@ -153,16 +153,19 @@ theorem queries_depend_only_on_domain_graph (rm rm' : RoleMgr α) (d : α)
       rm.getUsers a d = rm'.getUsers a d := by
   simp [RoleMgr.hasLink, RoleMgr.getRoles, RoleMgr.getUsers, hg, hm]
 
-/-- `delete_link` fails (NotFound) exactly when one of the names is unknown in the domain,
-and then nothing changes. -/
+/-- `delete_link` fails (NotFound) exactly when the names differ and one of them is
+unknown in the domain, and then nothing changes. -/
 theorem deleteLink_err_iff (rm : RoleMgr α) (a b d : α) :
-    rm.deleteLink a b d = none ↔ ¬ (a ∈ (rm.graph d).nodes ∧ b ∈ (rm.graph d).nodes) := by
+    rm.deleteLink a b d = none ↔ a ≠ b ∧ ¬ (a ∈ (rm.graph d).nodes ∧ b ∈ (rm.graph d).nodes) := by
   unfold RoleMgr.deleteLink RoleMgr.domainHasRole RoleMgr.graph
-  cases hg : rm.graph? d with
-  | none => simp [Graph.empty]
-  | some g =>
-    simp only [Option.getD]
-    by_cases h1 : a ∈ g.nodes <;> by_cases h2 : b ∈ g.nodes <;> simp [h1, h2]
+  by_cases hab : a = b
+  · simp [hab]
+  · simp only [hab, if_false, ne_eq, not_false_eq_true, true_and]
+    cases hg : rm.graph? d with
+    | none => simp [Graph.empty]
+    | some g =>
+      simp only [Option.getD]
+      by_cases h1 : a ∈ g.nodes <;> by_cases h2 : b ∈ g.nodes <;> simp [h1, h2]
 
 /-! ### Non-vacuity -/
 
